@@ -90,7 +90,7 @@ CHECK_DEADLOCK FALSE
 REQ_PROPS = "INVARIANT OneResponse\nINVARIANT NoUnhandled\nINVARIANT Bounded\nINVARIANT Terminates\nINVARIANT DefectsBite"
 
 
-def consts_module(L, lists, tier_cfg, defects, bytecode, hls, maxhist, reps=REPS):
+def consts_module(L, lists, tier_cfg, defects, bytecode, hls, maxhist, reps=REPS, c20cases=()):
     """spec/MC_C03_consts.tla for this run (B1)."""
     v = L.tla_value
     trees = {hl: L.tree_kinds(hl) for hl in ("default", "full")}
@@ -114,6 +114,9 @@ def consts_module(L, lists, tier_cfg, defects, bytecode, hls, maxhist, reps=REPS
         "C_HLs == " + v(set(hls)),
         "C_Reps == <<" + ", ".join("[f |-> %s, s |-> %s, a |-> %s]" % (v(f), v(s), v(a)) for f, s, a in reps) + ">>",
         "C_MaxHist == %d" % maxhist,
+        "C_C20Cases == <<" + ", ".join(
+            "[" + ", ".join("%s |-> %s" % (k, v(c[k])) for k in ("line", "tls", "wap", "hl", "tail", "fk", "fcls", "nw", "id")) + "]"
+            for c in c20cases) + ">>",
         "=============================================================================", ""]
     return "\n".join(lines)
 
@@ -264,10 +267,12 @@ def main(chk, replay=None):
         c = rp["case"]
         if c.get("mode") == "hist":
             evs, extras = _pool(_run_hist, [(c["r0"], c["history"])], c["hl"], bytecode=(c["hl"] == "full"))[0]
-            traces.append({"id": rp["key"], "init": {"prop": "C03", "hl": c["hl"]}, "events": evs, "case": c, "extras": extras})
+            traces.append({"id": c.get("trace_id", rp["key"]), "init": {"prop": "C03", "hl": c["hl"]}, "events": evs,
+                           "case": c, "extras": extras})
         else:
             evs, extras = _pool(_run_req, [c["rq"]], c["hl"])[0]
-            traces.append({"id": rp["key"], "init": {"prop": "C03", "hl": c["hl"]}, "events": evs, "case": c, "extras": extras})
+            traces.append({"id": c.get("trace_id", rp["key"]), "init": {"prop": "C03", "hl": c["hl"]}, "events": evs,
+                           "case": c, "extras": extras})
         res = resh = {"distinct": 0, "generated": 0, "cmd": "(replay)", "coverage": {}}
         n_req = n_hist = 0
     else:
@@ -307,7 +312,7 @@ def main(chk, replay=None):
                 rq, site, mproto, mkind = cases[rid]
                 f, s, _hl = split_id(rid)
                 traces.append({"id": "req:" + rid, "init": {"prop": "C03", "hl": hl}, "events": evs, "extras": extras,
-                               "case": {"mode": "req", "frame": f, "selarg": s, "hl": hl, "site": site, "rq": rq,
+                               "case": {"trace_id": "req:" + rid, "mode": "req", "frame": f, "selarg": s, "hl": hl, "site": site, "rq": rq,
                                         "model_proto": mproto, "model_kind": mkind}})
         lap("replay_req")
         # 2. design model, histories: self-composition, exhaustive up to MaxHist
@@ -361,7 +366,7 @@ def main(chk, replay=None):
                 n_hist += 1
                 hid = "%s <= [%s] @%s" % (reqs[r0 - 1]["id"], " ; ".join(reqs[h - 1]["id"] for h in hd), hl)
                 traces.append({"id": "hist:" + hid, "init": {"prop": "C03", "hl": hl}, "events": evs, "extras": extras,
-                               "case": {"mode": "hist", "hl": hl, "site": hcases[(r0, hd)], "r0": reqs[r0 - 1],
+                               "case": {"trace_id": "hist:" + hid, "mode": "hist", "hl": hl, "site": hcases[(r0, hd)], "r0": reqs[r0 - 1],
                                         "r0_id": reqs[r0 - 1]["id"], "history": [reqs[h - 1] for h in hd],
                                         "history_ids": [reqs[h - 1]["id"] for h in hd], "bytecode": bytecode}})
             lap("replay_hist")
